@@ -223,12 +223,57 @@ proof fn lemma_searches_ok<V>(n: NfaBuilder<u8, V>, st: Seq<State>, idmap: Seq<u
 }
 
 // what build_with_values promises about the automaton it returns (as fields, so that the exec function's own obligation is small)
+// the passes leave the builder invariant of `add` alone
+proof fn lemma_frame_keeps_add_inv<V>(a: NfaBuilder<u8, V>, b: NfaBuilder<u8, V>)
+    requires passes_frame(a, b), add_inv(a), reach_ok(a),
+    ensures add_inv(b),
+{
+    lemma_frame_keeps_trie(a, b);
+    assert forall|p: Seq<u8>| is_registered(b, p) == is_registered(a, p) && (is_registered(a, p) ==> reg_out(b, p) == reg_out(a, p)) by {
+        assert(walk(b, p) == walk(a, p));
+        if walk(a, p).is_some() { lemma_walk_range(a, p); }
+    }
+    assert forall|p: Seq<u8>| #[trigger] skipped_view(b.skipped).contains(p) implies exists|k: int| 0 <= k < p.len() && is_registered(b, p.take(k)) by {
+        let k = choose|k: int| 0 <= k < p.len() && is_registered(a, p.take(k));
+        assert(is_registered(b, p.take(k)));
+    }
+}
+// the pattern list and the value list of the input pairs
+spec fn item_pats<P: AsRef<[u8]>, V>(items: Seq<(P, V)>) -> Seq<Seq<u8>> { Seq::new(items.len(), |j: int| pat_at(items, j)) }
+spec fn item_vals<P, V>(items: Seq<(P, V)>) -> Seq<V> { Seq::new(items.len(), |j: int| items[j].1) }
+proof fn lemma_regs<P: AsRef<[u8]>, V>(n: NfaBuilder<u8, V>, items: Seq<(P, V)>)
+    requires add_inv(n), seen_is(n, items, items.len() as int), values_are(n, items, items.len() as int), !(n.match_kind is LeftmostFirst),
+    ensures regs(n, item_pats(items), item_vals(items)),
+{
+    let ps = item_pats(items); let vs = item_vals(items);
+    assert forall|q: Seq<u8>| #[trigger] is_registered(n, q) <==> exists|j: int| 0 <= j < ps.len() && #[trigger] ps[j] == q by {
+        assert(seen(n, q) == is_registered(n, q));
+        if is_registered(n, q) {
+            let j = choose|j: int| 0 <= j < items.len() && #[trigger] pat_at(items, j) == q;
+            assert(ps[j] == q);
+        }
+        if exists|j: int| 0 <= j < ps.len() && #[trigger] ps[j] == q {
+            let j = choose|j: int| 0 <= j < ps.len() && #[trigger] ps[j] == q;
+            assert(pat_at(items, j) == q);
+            assert(seen(n, q));
+        }
+    }
+    assert forall|j: int| 0 <= j < ps.len() implies reg_out(n, #[trigger] ps[j]).unwrap().0 == vs[j] by {
+        assert(pat_at(items, j) == ps[j]);
+        assert(seen(n, ps[j]));
+    }
+}
+//@include ghost_count.rs
 #[verifier::opaque]
 spec fn bwv_post<P: AsRef<[u8]>, V>(st: Seq<State>, outs: Seq<Output<V>>, num_states: u32, items: Seq<(P, V)>, kind: MatchKind) -> bool {
     &&& pats_valid(items)
     &&& bw_wf(st, lm_of(kind)) && outs_ok(st, outs)
     &&& exists|n: NfaBuilder<u8, V>| trie_ok(n) && reach_ok(n) && seen_is(n, items, items.len() as int)
             && #[trigger] n.states@.len() == num_states + 1 && st.len() >= n.states@.len()
+            // C15: the reported count is one (the root) plus the number of distinct non-empty prefixes of the registered patterns
+            && pref_count(n, node_set(n), num_states - 1)
+            // C08: exactly the listed patterns are registered, with their values and byte lengths
+            && (!(kind is LeftmostFirst) ==> regs(n, item_pats(items), item_vals(items)))
             && values_are(n, items, items.len() as int)
             && (kind is Standard ==> searches_ok(st, outs, n))
 }
@@ -240,7 +285,7 @@ proof fn lemma_bwv_post<P: AsRef<[u8]>, V>(nfa: NfaBuilder<u8, V>, st: Seq<State
         // from build_double_array
         da_safe(st), exists|idmap: Seq<u32>| bw_built(st, nfa, idmap),
         // the state count
-        nfa.states@.len() == num_states + 1,
+        nfa.states@.len() == num_states + 1, add_inv(nfa), nfa.match_kind == kind,
     ensures bwv_post(st, nfa.outputs@, num_states, items, kind),
 {
     reveal(bwv_post);
@@ -249,6 +294,8 @@ proof fn lemma_bwv_post<P: AsRef<[u8]>, V>(nfa: NfaBuilder<u8, V>, st: Seq<State
     lemma_built_outs_ok(st, nfa, idmap);
     lemma_slots_at_least_states(st, nfa, idmap);
     if kind is Standard { lemma_searches_ok(nfa, st, idmap); }
+    lemma_state_count(nfa);
+    if !(kind is LeftmostFirst) { lemma_regs(nfa, items); }
     assert(nfa.states@.len() == num_states + 1 && st.len() >= nfa.states@.len());
 }
 
